@@ -274,6 +274,12 @@ def close_propagation(ctx, rng):
         if k == 0:
             pass  # k = 0: read to the end, then close()
         closed[variant] = (marks.get("closed", 0), r.exc)
+        # the same (wrapped) application object answers further requests afterwards: each one complete and its own
+        for follow in range(2):
+            marks.clear()
+            r2 = drivers.run_wsgi(app, drivers.to_environ(drivers.Req(path=b"/follow%d" % follow)))
+            if r2.exc is not None or r2.body != b"".join(b"c%d" % i for i in range(n)) or marks.get("invoked") != 1:
+                ctx.violation(f"request-after-an-abandoned-one-is-wrong|wsgi|{variant}", case, f"body {r2.body!r} exc {r2.exc!r} inner app invoked {marks.get('invoked')} times")
     ctx.mon("close-propagation")
     if closed["bare"][0] != 1 or closed["bare"][1] is not None:
         raise drivers.HarnessError(f"bare run did not close the inner iterable once: {closed['bare']}")
